@@ -445,7 +445,7 @@ def scen_hostport(ctx, M):
     elif fam == 'v6':
         host = Stub.A6
     else:
-        k = ctx.choice('k', [1, 2])
+        k = ctx.choice('k', [1, 2, 15])      # 15: the longest valid scope
         host = cat(Stub.A6, '%', ctx.str('scope', k, frozenset(b'e0')))
     port = ctx.int('port', 0, 65535)
     dflt = ctx.int('default', 0, 65535)
